@@ -352,8 +352,8 @@ PROPS = {
                  "USERNAME / USERHASH / REALM / NONCE / PASSWORD-ALGORITHM(S) / MESSAGE-INTEGRITY / -SHA256 / FINGERPRINT, all "
                  "mechanisms x fingerprint x transports x credential states (scripted prefixes). Oracle: strict reference parse "
                  "of every emitted request and indication: asked class/method, fresh id equal to the returned one, attribute "
-                 "sequence = application attributes (one per type, first-insertion position, last value, values equal to the "
-                 "reference encoding, minus the types the mechanism owns) then only mechanism-owned attributes each at most once, "
+                 "sequence = application attributes (one per type, first-insertion position, a value the application supplied "
+                 "for that type in the reference encoding, minus the types the mechanism owns) then only mechanism-owned attributes each at most once, "
                  "then <=1 MI, <=1 SHA256, <=1 FINGERPRINT in that order at the end, each verifying (mechanism key; the "
                  "application's own key without mechanism; CRC); retransmissions byte-identical (timer monitor). Non-trivial = "
                  "every history." + ENUM_S + ENUM_L),
